@@ -29,7 +29,7 @@ class CallMixin:
                 directive = "opaque"
         if isinstance(f, ast.Name):
             n = f.id
-            if self.spec_mode or n in ("implies", "old"):
+            if self.spec_mode or n in ("implies", "old", "at"):
                 r = self.spec_macro(n, e, st, exc)
                 if r is not None:
                     return r
@@ -81,6 +81,18 @@ class CallMixin:
                 self.old_state = saved
                 self.in_old -= 1
             return [(st, v)]
+        if n == "at":
+            # at("label", expr): the value of expr in the state recorded at the snapshot site of that label (sidecar
+            # 'snapshots'); only on paths that went through the site
+            label = e.args[0].value
+            if label not in st.snaps:
+                raise Unsupported("at(%r): this path did not pass the snapshot site" % label)
+            sst = st.snaps[label].copy()
+            sst.pc = st.pc
+            saved_env = sst.env
+            sst.env = dict(st.env)
+            sst.env.update(saved_env)
+            return [(st, self.ev1(e.args[1], sst))]
         if n in ("all", "any") and len(e.args) == 1 and isinstance(e.args[0], ast.GeneratorExp):
             return [(st, mk_bool(self.quantifier(n, e.args[0], st)))]
         if n == "has_attr":
